@@ -17,7 +17,7 @@ from concurrent.futures import ThreadPoolExecutor
 
 LEVEL = "translation_validation"
 
-QUICK = ["quick_fmt", "quick_w", "quick_shfmt", "quick_shadow", "quick_sel", "quick_lit", "quick_main"]
+QUICK = ["quick_fmt", "quick_w", "quick_shfmt", "quick_litparam", "quick_shadow", "quick_sel", "quick_lit", "quick_main"]
 THOROUGH = ["thorough_fmt", "thorough_shadow", "thorough_litmain", "thorough_selmain",
             "thorough_mainfn"]
 
